@@ -84,9 +84,14 @@ class Ctx:
         key = norm_key(f'{self.cur.id} | {mod} | {qn} | {decisive}')
         self.instances.append(Instance(self.cur.id, site, False, what, key=key, witness=witness or [], detail=detail))
 
-    def floor(self, n: int, minimum: int, what: str) -> None:
-        if n < minimum:
-            raise AnalysisError(f'{self.cur.id if self.cur else "?"}: instance floor undershot: found {n} {what}, confirmed by hand: >= {minimum}')
+    def floor(self, n: int, confirmed: int, what: str, hard: int = 1) -> None:
+        """Vacuity guard.  *confirmed* is the number of sites counted by hand on the tree the rules were written for; a run that finds none (fewer than *hard*) cannot
+        have checked anything and is an analysis error.  Finding fewer than *confirmed* but at least *hard* is legitimate (two sites merged into one by a refactoring): every
+        site that exists is still checked, and the difference is recorded in the evidence."""
+        if n < hard:
+            raise AnalysisError(f'{self.cur.id if self.cur else "?"}: instance floor undershot: found {n} {what}, confirmed by hand: {confirmed} (at least {hard} must exist)')
+        if n < confirmed:
+            self.note(f'found {n} {what}; the tree the rules were written for has {confirmed} (sites merged or removed: each remaining site is checked)')
 
     def note(self, s: str) -> None:
         self.notes.append(f'{self.cur.id if self.cur else ""}: {s}')
